@@ -549,4 +549,197 @@ theorem realizeB_eq_realize (ctl : List (List String)) (root : Mod) :
     simp only [realizeB, realize, callRoot]
     split <;> rw [visitAllB_eq_visitAll ctl cs]
 
+/-! ## mutation of an already attached descendant (top-down construction) -/
+
+theorem go_key (f : Mod → Mod) (T : Mod → Prop) (k : String) (ks : List String)
+    (ih : ∀ (m : Mod) (e : String), (∀ t, nodeAt ks m = some t → T t) → Named e m → Named e (modifyAt ks f m)) :
+    ∀ cs : Mods, (∀ m t, cs.find? k = some m → nodeAt ks m = some t → T t) → NamedKey cs →
+      NamedKey (modifyAt.go k ks f cs)
+  | .nil, _, h => by simpa [modifyAt.go] using h
+  | .cons k' m r, ht', h' => by
+    simp only [NamedKey] at h'
+    simp only [modifyAt.go]
+    split
+    · rename_i hk
+      simp only [NamedKey]
+      exact ⟨h'.1, ih m k' (fun t hn => ht' m t (by simp [Mods.find?, hk]) hn) h'.2.1, h'.2.2⟩
+    · rename_i hk
+      simp only [NamedKey]
+      exact ⟨h'.1, h'.2.1,
+        go_key f T k ks ih r (fun m' t hf' hn => ht' m' t (by simp [Mods.find?, hk, hf']) hn) h'.2.2⟩
+
+theorem go_qual (f : Mod → Mod) (T : Mod → Prop) (k : String) (ks : List String)
+    (ih : ∀ (m : Mod) (e : String), (∀ t, nodeAt ks m = some t → T t) → Named e m → Named e (modifyAt ks f m))
+    (q : String) :
+    ∀ cs : Mods, (∀ m t, cs.find? k = some m → nodeAt ks m = some t → T t) → NamedQual q cs →
+      NamedQual q (modifyAt.go k ks f cs)
+  | .nil, _, h => by simpa [modifyAt.go] using h
+  | .cons k' m r, ht', h' => by
+    simp only [NamedQual] at h'
+    simp only [modifyAt.go]
+    split
+    · rename_i hk
+      simp only [NamedQual]
+      exact ⟨h'.1, ih m _ (fun t hn => ht' m t (by simp [Mods.find?, hk]) hn) h'.2.1, h'.2.2⟩
+    · rename_i hk
+      simp only [NamedQual]
+      exact ⟨h'.1, h'.2.1,
+        go_qual f T k ks ih q r (fun m' t hf' hn => ht' m' t (by simp [Mods.find?, hk, hf']) hn) h'.2.2⟩
+
+theorem modifyAt_named (f : Mod → Mod) (T : Mod → Prop)
+    (hf : ∀ e m, T m → Named e m → Named e (f m)) :
+    ∀ (path : List String) (m : Mod) (e : String), (∀ t, nodeAt path m = some t → T t) → Named e m →
+      Named e (modifyAt path f m)
+  | [], m, e, ht, h => by
+    simp only [modifyAt]
+    exact hf e m (ht m rfl) h
+  | k :: ks, .mk kd n ps cs, e, ht, h => by
+    have ih := modifyAt_named f T hf ks
+    have ht' : ∀ m t, cs.find? k = some m → nodeAt ks m = some t → T t := by
+      intro m t hm hn
+      apply ht t
+      simp [nodeAt, hm, hn]
+    simp only [Named] at h
+    simp only [modifyAt, Named]
+    refine ⟨h.1, h.2.1, ?_⟩
+    cases kd
+    · exact go_key f T k ks ih cs ht' h.2.2
+    · exact ⟨h.2.2.1, go_qual f T k ks ih e cs ht' h.2.2.2⟩
+    · exact go_key f T k ks ih cs ht' h.2.2
+
+/-- the same for the root as it is called. -/
+theorem modifyAt_rootNamed (f : Mod → Mod) (T : Mod → Prop)
+    (hf : ∀ e m, T m → Named e m → Named e (f m))
+    (hroot : ∀ m, T m → RootNamed m → RootNamed (f m)) (path : List String) (root : Mod)
+    (ht : ∀ t, nodeAt path root = some t → T t) (h : RootNamed root) : RootNamed (modifyAt path f root) := by
+  cases path with
+  | nil => simp only [modifyAt]; exact hroot root (ht root rfl) h
+  | cons k ks =>
+    cases root with
+    | mk kd n ps cs =>
+      -- view the root as named by some name: only its children matter
+      simp only [RootNamed] at h
+      have hn : Named "r" (.mk kd (some "r") ps cs) := by
+        simp only [Named]
+        refine ⟨trivial, h.2.1, ?_⟩
+        cases kd
+        · exact h.2.2
+        · exact absurd rfl h.1
+        · exact h.2.2
+      have := modifyAt_named f T hf (k :: ks) (.mk kd (some "r") ps cs) "r"
+        (fun t hn' => ht t (by simpa [nodeAt] using hn')) hn
+      simp only [modifyAt, Named] at this
+      simp only [modifyAt, RootNamed]
+      refine ⟨h.1, this.2.1, ?_⟩
+      cases kd
+      · exact this.2.2
+      · exact absurd rfl h.1
+      · exact this.2.2
+
+/-! ### the three mutations keep `Named` / `RootNamed` -/
+
+theorem Named.setParam (e : String) (m : Mod) (attr : String) (pname : Option String) (pid : Nat)
+    (hk : m.kind ≠ .list) (hp : pname = none ∨ pname = some attr) (h : Named e m) :
+    Named e (OV.C18.setParam m attr pname pid) := by
+  have hn : (⟨attr, pname.getD attr, pid⟩ : Param).name = (⟨attr, pname.getD attr, pid⟩ : Param).attr := by
+    rcases hp with rfl | rfl <;> rfl
+  cases m with
+  | mk k n ps cs =>
+    cases k
+    · simp only [Named] at h; simp only [OV.C18.setParam, Named]
+      exact ⟨h.1, ParamsAgree.insert ps _ hn h.2.1, h.2.2⟩
+    · exact absurd rfl hk
+    · simp only [Named] at h; simp only [OV.C18.setParam, Named]
+      exact ⟨h.1, ParamsAgree.insert ps _ hn h.2.1, h.2.2⟩
+
+theorem RootNamed.setParam (m : Mod) (attr : String) (pname : Option String) (pid : Nat)
+    (hp : pname = none ∨ pname = some attr) (h : RootNamed m) :
+    RootNamed (OV.C18.setParam m attr pname pid) := by
+  have hn : (⟨attr, pname.getD attr, pid⟩ : Param).name = (⟨attr, pname.getD attr, pid⟩ : Param).attr := by
+    rcases hp with rfl | rfl <;> rfl
+  cases m with
+  | mk k n ps cs =>
+    simp only [RootNamed] at h
+    simp only [OV.C18.setParam, RootNamed]
+    exact ⟨h.1, ParamsAgree.insert ps _ hn h.2.1, h.2.2⟩
+
+theorem Named.setChild (e : String) (m c : Mod) (attr : String) (hm : m.kind = .module) (ha : attr ≠ "")
+    (hcn : c.name = none ∨ (c.kind = .module ∧ c.name = some attr)) (hc : GoodT c) (h : Named e m) :
+    Named e (OV.C18.setChild m attr c) := by
+  cases m with
+  | mk k n ps cs =>
+    simp only [Mod.kind] at hm
+    subst hm
+    simp only [Named] at h
+    simp only [OV.C18.setChild, Named]
+    exact ⟨h.1, h.2.1, NamedKey.insert cs attr _ ha (Named.attrChild c attr hcn hc) h.2.2⟩
+
+theorem RootNamed.setChild (m c : Mod) (attr : String) (hm : m.kind = .module) (ha : attr ≠ "")
+    (hcn : c.name = none ∨ (c.kind = .module ∧ c.name = some attr)) (hc : GoodT c) (h : RootNamed m) :
+    RootNamed (OV.C18.setChild m attr c) := by
+  cases m with
+  | mk k n ps cs =>
+    simp only [Mod.kind] at hm
+    subst hm
+    simp only [RootNamed] at h
+    simp only [OV.C18.setChild, RootNamed]
+    exact ⟨h.1, h.2.1, NamedKey.insert cs attr _ ha (Named.attrChild c attr hcn hc) h.2.2⟩
+
+/-- a plain Module stored under a bare key (what `Sequential._register_child` does) is named by that key. -/
+theorem Named.seqChild_module (key : String) (c : Mod) (hk : c.kind = .module) (hcn : c.name = none)
+    (hc : GoodT c) : Named key (seqChild key c) := by
+  cases c with
+  | mk k n ps cs =>
+    simp only [Mod.kind] at hk
+    subst hk
+    simp only [Mod.name] at hcn
+    subst hcn
+    simp only [GoodT] at hc
+    simp only [OV.C18.seqChild, Mod.name, Mod.rawName, Named]
+    exact ⟨trivial, hc.1, hc.2⟩
+
+/-- `append` on a list / Sequential that already has its name. -/
+theorem Named.append (e : String) (l c : Mod)
+    (hl : l.kind = .list ∨ (l.kind = .seq ∧ c.kind = .module)) (hc : GoodT c) (hcn : c.name = none)
+    (h : Named e l) : Named e (OV.C18.append l c) := by
+  cases l with
+  | mk k n ps cs =>
+    cases k
+    · simp [Mod.kind] at hl
+    · simp only [Named] at h
+      obtain ⟨rfl, hp, hps, hq⟩ := h
+      simp only [OV.C18.append, regChild, Mod.kind, regChildList, Named]
+      refine ⟨trivial, hp, hps, NamedQual.insert cs e _ _ (toString_nat_ne_empty _) ?_ hq⟩
+      simp only [listChild, hcn]
+      exact GoodT.named c _ hc
+    · have hck : c.kind = .module := by
+        rcases hl with h' | h'
+        · simp [Mod.kind] at h'
+        · exact h'.2
+      simp only [Named] at h
+      simp only [OV.C18.append, regChild, Mod.kind, regChildSeq, Named]
+      exact ⟨h.1, h.2.1, NamedKey.insert cs _ _ (toString_nat_ne_empty _)
+        (Named.seqChild_module _ c hck hcn hc) h.2.2⟩
+
+theorem RootNamed.append (l c : Mod) (hl : l.kind = .list ∨ (l.kind = .seq ∧ c.kind = .module)) (hc : GoodT c)
+    (hcn : c.name = none) (h : RootNamed l) : RootNamed (OV.C18.append l c) := by
+  cases l with
+  | mk k n ps cs =>
+    cases k
+    · simp [Mod.kind] at hl
+    · simp only [RootNamed] at h; exact absurd rfl h.1
+    · have hck : c.kind = .module := by
+        rcases hl with h' | h'
+        · simp [Mod.kind] at h'
+        · exact h'.2
+      simp only [RootNamed] at h
+      simp only [OV.C18.append, regChild, Mod.kind, regChildSeq, RootNamed]
+      exact ⟨h.1, h.2.1, NamedKey.insert cs _ _ (toString_nat_ne_empty _)
+        (Named.seqChild_module _ c hck hcn hc) h.2.2⟩
+
+theorem of_all {P : Mod → Prop} [DecidablePred P] {o : Option Mod}
+    (h : o.all (fun t => decide (P t)) = true) : ∀ t, o = some t → P t := by
+  intro t ht; subst ht; simpa using h
+
+
 end OV.C18
